@@ -14,6 +14,23 @@ XStep(st, e, t) ==
       [] e.e = "identify" -> IF e.frames = IdentifyFrames(e.ids) THEN Good(st) ELSE Bad(st, "LSS identify remote slave frames wrong")
       [] e.e = "identify_nc" -> IF e.frames = <<IdentifyNonConfigured>> THEN Good(st) ELSE Bad(st, "LSS identify non-configured remote slave frame wrong")
       [] e.e = "pdolookup" -> IF e.found = e.expect THEN Good(st) ELSE Bad(st, "PDO lookup (by number / record index / variable name) reached the wrong map or variable")
+      [] e.e = "arrview" ->
+           IF e.len # ArrLen(e.cnt) THEN Bad(st, "length of a remote array is not the number of entries the device reports")
+           ELSE IF e.iter # ArrIter(e.cnt) THEN Bad(st, "iterating a remote array does not yield sub-indexes 1..n")
+           ELSE IF \E i \in 1..Len(e.contains) : e.contains[i][2] # ArrContains(e.cnt, e.contains[i][1] - 1)
+             THEN Bad(st, "membership in a remote array is not 0 <= sub-index <= n")
+           ELSE IF \E i \in 1..Len(e.reads) : e.reads[i] # <<<<8448, 0>>>>
+             THEN Bad(st, "each question about a remote array reads 0x2100:00 from the device exactly once")
+           ELSE Good(st)
+      [] e.e = "recview" ->
+           LET subs == {e.subs[j] : j \in 1..Len(e.subs)} IN
+           IF e.len # RecLen(subs) THEN Bad(st, "length of a remote record counts the 'highest sub-index' entry (or misses a member)")
+           ELSE IF e.iter # RecIter(subs) THEN Bad(st, "iterating a remote record does not yield its members without sub-index 0, in order")
+           ELSE IF (\E i \in 1..Len(e.contains) : e.contains[i][2] # (e.contains[i][1] \in subs))
+                   \/ (\E k \in 1..Len(e.names) : e.names[k][2] # (e.names[k][1] \in subs))
+             THEN Bad(st, "membership in a remote record (by number / by name) is wrong")
+           ELSE IF e.traffic # 0 THEN Bad(st, "questions about a remote record caused SDO traffic")
+           ELSE Good(st)
       [] OTHER -> Bad(st, "unknown event")
 TraceFile == JsonDeserialize(IOEnv.TRACE_FILE)
 VARIABLES tid, l, st
